@@ -246,7 +246,10 @@ func timeOf(raw json.RawMessage) time.Time {
 }
 
 // set stores abstract value raw into v (of goType(t)).
-func set(t Type, v reflect.Value, raw json.RawMessage) {
+func set(t Type, v reflect.Value, raw json.RawMessage) { setD(t, v, raw, 0) }
+
+// setD: depth 0 = the top-level struct, 1 = its direct fields.
+func setD(t Type, v reflect.Value, raw json.RawMessage, depth int) {
 	switch t.K {
 	case "int", "enum":
 		v.SetInt(bigOf(raw).Int64())
@@ -287,11 +290,17 @@ func set(t Type, v reflect.Value, raw json.RawMessage) {
 		var el []json.RawMessage
 		json.Unmarshal(raw, &el)
 		if len(el) == 0 {
-			return // nil slice
+			if t.P.Omit && depth == 1 {
+				// empty but not nil: only `omitempty` (not the zero-value rule of `optional`) omits it.
+				// Only in fields of the top-level struct: inside an optional struct a non-nil empty
+				// slice would make that struct non-zero, which the abstract value cannot express.
+				v.Set(reflect.MakeSlice(v.Type(), 0, 0))
+			}
+			return // otherwise the nil slice
 		}
 		s := reflect.MakeSlice(v.Type(), len(el), len(el))
 		for i, e := range el {
-			set(t.Sub[0], s.Index(i), e)
+			setD(t.Sub[0], s.Index(i), e, depth+1)
 		}
 		v.Set(s)
 	case "struct":
@@ -301,7 +310,7 @@ func set(t Type, v reflect.Value, raw json.RawMessage) {
 			obs.Fatal("struct value with %d members for %d fields", len(el), len(t.Sub))
 		}
 		for i, e := range el {
-			set(t.Sub[i], v.Field(i), e)
+			setD(t.Sub[i], v.Field(i), e, depth+1)
 		}
 	}
 }
